@@ -101,8 +101,8 @@ GROUP_F = ["clap_builder::parser::MatchedArg::{new_group,new_val_group,append_va
 bld("c02", "range_predicates", ["C02"], "quick", "lo <= hi and cur over all of usize", RANGE_F)
 bld("c02", "range_from_impls", ["C02"], "quick", "a, b over all of usize, every From<range> impl", RANGE_F)
 bld("c02", "twin_c02_range_must_fail", ["C02"], "quick", "vacuity twin", RANGE_F, expect="fail")
-bld("c02", "matched_grouping_2", ["C02"], "quick", "2 symbolic ops from {new_val_group, append_val}", GROUP_F, slots=[(1, [0, 1])] * 2)
-bld("c02", "matched_grouping_3", ["C02"], "thorough", "3 symbolic ops from {new_val_group, append_val}", GROUP_F, budget_s=1800, mem_gb=14, slots=[(1, [0, 1])] * 3)
+bld("c02", "matched_grouping_2", ["C02", "C07"], "quick", "2 symbolic ops from {new_val_group, append_val}", GROUP_F, slots=[(1, [0, 1])] * 2)
+bld("c02", "matched_grouping_3", ["C02", "C07"], "thorough", "3 symbolic ops from {new_val_group, append_val}", GROUP_F, budget_s=1800, mem_gb=14, slots=[(1, [0, 1])] * 3)
 bld("c02", "matched_indices", ["C02"], "quick", "0..=3 push_index calls with indices over all of usize", GROUP_F)
 # matched_grouping_4: out of memory at 20 GB after 260 s (measured in the thorough tier) - not registered, outside the claim
 
